@@ -15,7 +15,8 @@
 From OrxPar Require Import Base.
 Set Implicit Arguments.
 
-Inductive phase := Ready | Holding (b k : nat) | Found | Done.
+(** [Dead]: the worker's closure panicked; the thread has unwound *)
+Inductive phase := Ready | Holding (b k : nat) | Found | Done | Dead.
 
 Record worker := mkW {
   csize : nat;                 (* chunk size handed to the task *)
@@ -42,6 +43,7 @@ Section Machine.
 Variable len : nat.                            (* length of the source *)
 Variable known : bool.                         (* does the source report its length? *)
 Variable stop : nat -> bool.
+Variable panics : nat -> bool.                 (* processing position [i] panics *)
 (** the runner's decisions ([do_spawn], [next_chunk_size]); [has_more] is passed as
     [Some remaining] ([Some 0] = [HasMore::No]) or [None] ([Maybe]) *)
 Variable dospawn : nat -> option nat -> bool.
@@ -85,7 +87,9 @@ Definition wstep (c f : nat) (sk : bool) (w : worker) : nat * nat * bool * worke
       else (c + csize w, f, sk, mkW (csize w) Done (seen w) (aband w) (pulls w))
   | Holding b 0 => (c, f, sk, mkW (csize w) Ready (seen w) (aband w) (pulls w))
   | Holding b (S k) =>                                  (* process one element, local *)
-      if stop b
+      if panics b                                       (* unwinding drops the rest of the chunk *)
+      then (c, f, sk, mkW (csize w) Dead (seen w ++ [b]) (seq (S b) k ++ aband w) (pulls w))
+      else if stop b
       then (c, f, sk, mkW (csize w) Found (seen w ++ [b]) (seq (S b) k ++ aband w) (pulls w))
       else match k with
            | 0 => (c, f, sk, mkW (csize w) Ready (seen w ++ [b]) (aband w) (pulls w))
@@ -94,6 +98,7 @@ Definition wstep (c f : nat) (sk : bool) (w : worker) : nat * nat * bool * worke
   | Found =>                                            (* skip_to_end: fetch_max(len) *)
       (Nat.max c len, f, true, mkW (csize w) Done (seen w) (aband w) (pulls w))
   | Done => (c, f, sk, w)
+  | Dead => (c, f, sk, w)
   end.
 
 Definition step (s : sys) (t : nat) : sys :=
@@ -112,11 +117,14 @@ Definition run (s : sys) (sched : list nat) : sys := fold_left step sched s.
 
 Definition init (c0 : nat) : sys := mkS 0 0 false [] (SpLoop LAG_PERIODICITY) c0.
 
+Definition finished (w : worker) : Prop := ph w = Done \/ ph w = Dead.
 Definition all_done (s : sys) : Prop :=
-  sph s = SpDone /\ forall w, In w (ws s) -> ph w = Done.
+  sph s = SpDone /\ forall w, In w (ws s) -> finished w.
+Definition any_dead (s : sys) : bool :=
+  existsb (fun w => match ph w with Dead => true | _ => false end) (ws s).
 
 Definition all_doneb (s : sys) : bool :=
-  match sph s with SpDone => forallb (fun w => match ph w with Done => true | _ => false end) (ws s)
+  match sph s with SpDone => forallb (fun w => match ph w with Done | Dead => true | _ => false end) (ws s)
                  | _ => false end.
 
 (** round-robin continuation used by the termination theorems and by the replays:
